@@ -82,7 +82,13 @@ def one_run(item):
     ScenarioRunner.run_round_1 = r1
     try:
         with ru.OptimizerCapture(want_rows=False) as cap, ru.quiet():
-            ratio, interp = ru.run_country(item["iso3"], item["option"])
+            if item["iso3"] == "WOR":     # the world aggregate: no country row, the dispatcher is called with country_data=None
+                import copy as _copy
+                sr = ScenarioRunner()
+                c_, t_, loader_ = sr.set_depending_on_option(_copy.deepcopy(item["option"]))
+                interp = sr.run_and_analyze_scenario(c_, t_, loader_, False, False, "_world", None, False, "world", "WOR", title="verif")
+            else:
+                ratio, interp = ru.run_country(item["iso3"], item["option"])
         rec["pf3"] = float(interp.percent_people_fed)
         rec["rounds"] = []
         for s in cap.solves:
